@@ -843,3 +843,40 @@ Example drop_repeat_free_stage :
   let ps := [("level", Some "debug"); ("pod", None)]%string in
   NoDup (map fst ps) /\ drop_hit_one_per_name "level" "debug" ps = true /\ existsb (param_hits "pod" "p1") ps = true.
 Proof. exact InternalEngineDropProofs.repeat_free_stage. Qed.
+
+(* ------------------------------------------------------------------------------------------------------------------ *)
+(* Round 8 (seed C09-h): which aggregator stages a parsed metric query becomes, and in which order (model/InternalEnginePlan.v
+   = planAggregators / planByWithout / groupByNothing).  A comparison written inside a vector aggregation sits between the
+   range aggregation and the regrouping ... *)
+From Qryn Require Import model.InternalEnginePlan proofs.InternalEnginePlanProofs.
+
+Theorem inner_comparison_is_planned_before_the_regrouping : forall (V : Type) (a : aggq V),
+  exists range_stage,
+    plan_range V (aq_range a) = (range_stage ++ cmp_stage V (rq_cmp (aq_range a)))%list /\
+    plan_agg V a = (range_stage ++ cmp_stage V (rq_cmp (aq_range a)) ++ bw_stage V (agg_bw V a) ++
+                    [SAgg V (KAggOp (aq_fn a)) (rq_dur (aq_range a))] ++ cmp_stage V (aq_cmp a))%list.
+Proof. exact InternalEnginePlanProofs.plan_agg_shape. Qed.
+Print Assumptions inner_comparison_is_planned_before_the_regrouping.
+
+(* ... the seed's order (sum over count_over_time / bytes_over_time: regrouping BEFORE the range aggregation) holds the same
+   stages when no inner comparison is written -- only inputs with one tell the two orders apart -- *)
+Theorem regrouping_first_only_moves_a_stage_without_inner_comparison : forall (V : Type) (a : aggq V),
+  group_first V a = true -> rq_cmp (aq_range a) = None ->
+  plan_agg V a = ([SAgg V (KLra (rq_lra (aq_range a))) (rq_dur (aq_range a))] ++ bw_stage V (agg_bw V a) ++
+                  [SAgg V (KAggOp (aq_fn a)) (rq_dur (aq_range a))] ++ cmp_stage V (aq_cmp a))%list /\
+  plan_agg_group_first V a = (bw_stage V (agg_bw V a) ++ [SAgg V (KLra (rq_lra (aq_range a))) (rq_dur (aq_range a))] ++
+                  [SAgg V (KAggOp (aq_fn a)) (rq_dur (aq_range a))] ++ cmp_stage V (aq_cmp a))%list.
+Proof. exact InternalEnginePlanProofs.group_first_only_moves_the_regrouping. Qed.
+Print Assumptions regrouping_first_only_moves_a_stage_without_inner_comparison.
+
+Example regrouping_first_hypotheses_met :
+  group_first Z w_plain = true /\ rq_cmp (aq_range w_plain) = None /\ plan_agg Z w_plain <> plan_agg_group_first Z w_plain.
+Proof. exact InternalEnginePlanProofs.group_first_only_moves_the_regrouping_applies. Qed.
+
+(* ... and with one it is wrong: sum by (lvl) (count_over_time(..[60s]) > 1) over two lines of two hosts is empty by the
+   definition (reference semantics sem_chain over plan_agg) and {lvl="warn"} = 2 when the regrouping comes first *)
+Theorem regrouping_before_the_range_aggregation_refuted :
+  exists (c : ctx) (a : aggq Z) (l : list (entry Z)),
+    group_first Z a = true /\ zsem c (plan_agg Z a) l = [] /\ zsem c (plan_agg_group_first Z a) l <> [].
+Proof. exact InternalEnginePlanProofs.group_first_refuted. Qed.
+Print Assumptions regrouping_before_the_range_aggregation_refuted.
